@@ -277,15 +277,20 @@ def commentsFor (n : AV) : CG × CG :=
         (b, a)
     | _, _ => acc) ([], [])
 
+/-- where the comments of a node stop that begin at or after the node does (at least the node's own end):
+the comments that trail it, also when its end, computed from a new name, lies beyond where they begin -/
+def trailEnd (n : AV) : Nat :=
+  n.cms.foldl (fun acc cg =>
+    match cg.head?, cg.getLast? with
+    | some first, some last => if first.1 ≥ n.pos then max acc last.2 else acc
+    | _, _ => acc) n.stop
+
 /-- `starts` of walkStruct -/
 def starts : Nat → List AV → List Nat
   | _, [] => []
   | lastEnd, c :: cs =>
     if c.isNode then
-      let e := match (commentsFor c).2.getLast? with
-        | some l => max c.stop l.2
-        | none => c.stop
-      c.pos :: starts e cs
+      c.pos :: starts (trailEnd c) cs
     else if c.ty == tyPos then
       (if c.pos != 0 then c.pos else lastEnd) :: starts lastEnd cs
     else lastEnd :: starts lastEnd cs
@@ -352,11 +357,25 @@ structure W where
   to : AV
   bad : Bool := false
 
+/-- two pointer values that point to one and the same object (the harness numbers the objects) -/
+def ptrSame (k : Nat) (pl : String) (t : AV) : Bool :=
+  k == kPtr && t.kind == kPtr && pl != "" && pl == t.payload
+
+/-- `sameNode`: both values are nodes and, below the interface if there is one, the same object: a node
+that was edited in place.  (The value inside an interface is never itself an interface.) -/
+def sameNodeB (isn : Bool) (k : Nat) (pl : String) (kids : List AV) (t : AV) : Bool :=
+  isn && t.isNode &&
+  (if k == kIface && t.kind == kIface then
+     match kids, t.kids with
+     | a :: _, b :: _ => ptrSame a.kind a.payload b
+     | _, _ => false
+   else ptrSame k pl t)
+
 mutual
 /-- `changeFinder.Walk` -/
 def walk (R : Rg) (src : AV) (to : AV) : W :=
   match src with
-  | .mk ty k _ p _ cms nl pl en kids =>
+  | .mk ty k isn p _ cms nl pl en kids =>
     if ty != to.ty then { eq := false, ch := [R], to := to }
     else if ty == tyObject then { eq := true, ch := [], to := to }
     else if ty == tyCommentGroup then { eq := true, ch := [], to := to }
@@ -369,7 +388,8 @@ def walk (R : Rg) (src : AV) (to : AV) : W :=
        else
         let (eq, ch, ks, bad) := walkElem R kids to.kids
         let to' := to.withKids ks
-        { eq := eq, ch := ch, to := if eq then to'.withCms cms else to', bad := bad })
+        -- unchanged, or changed but one and the same node edited in place: it keeps the comments around it
+        { eq := eq, ch := ch, to := if eq || sameNodeB isn k pl kids to then to'.withCms cms else to', bad := bad })
     else if k == kSlice then
       (if !en then
         (if kids.length != to.kids.length then { eq := false, ch := [R], to := to }
